@@ -21,6 +21,7 @@ LEAVES = [
     "{% incl_tag v %}",
     '{% firstof u v "z" %}',
     '{% firstof u "5\\" n" %}',  # balanced quotes with a backslash-escaped quote inside the string literal
+    '{% firstof u "C:\\\\" %}',  # string literal ending in an escaped backslash
 ]
 LEAVES_ERR = ["{% bogus %}", "{{ v|nofilter }}", "{% endif %}"]
 INCLUDES = ['{% include "inc" %}', '{% include "inc" with a=v only %}']
